@@ -34,10 +34,10 @@ type VerifEtcd struct {
 	mu      sync.Mutex
 	conn    *grpc.ClientConn
 	rev     int64
-	snap    map[string][]internal.KV             // watch prefix -> what Get returns
+	snap    map[string][]internal.KV               // watch prefix -> what Get returns
 	chans   map[string]chan clientv3.WatchResponse // watch prefix -> current watch channel
-	ready   chan string                           // one token per Watch call
-	getErrs int                                   // number of upcoming Get calls that fail
+	ready   chan string                            // one token per Watch call
+	getErrs int                                    // number of upcoming Get calls that fail
 	gets    int
 	// lease store (publisher harness): Grant / Put(WithLease) / Revoke / KeepAlive behave like a one-node etcd:
 	// a put is stored and delivered as a PUT event to every watch whose key covers it, a revoke deletes the keys
@@ -52,7 +52,11 @@ type VerifEtcd struct {
 	revokes   int
 	// fault injection (publisher harness): the next n calls of the kind fail
 	failGrant, failPut, failKA, failRevoke int
-	expired                                int
+	// revisions: events that happen after a snapshot was read and before the watch is established again (the gap);
+	// a watch that asks for revision r is told the gap events with ModRevision >= r (r == 0: from now on, none)
+	gap     map[string][]*clientv3.Event
+	reqRev  map[string]int64 // watch key -> start revision of the latest Watch call
+	expired int
 }
 
 // errVerifFault is what an armed call returns (etcd unreachable)
@@ -131,11 +135,11 @@ func VerifInstallEtcd() *VerifEtcd {
 			panic(err)
 		}
 		verifEtcd = &VerifEtcd{
-			conn:  conn,
-			rev:   1,
-			snap:  map[string][]internal.KV{},
-			chans: map[string]chan clientv3.WatchResponse{},
-			ready: make(chan string, 1024),
+			conn:     conn,
+			rev:      1,
+			snap:     map[string][]internal.KV{},
+			chans:    map[string]chan clientv3.WatchResponse{},
+			ready:    make(chan string, 1024),
 			store:    map[string]verifStored{},
 			kaChans:  map[clientv3.LeaseID]chan *clientv3.LeaseKeepAliveResponse{},
 			prefixed: map[string]bool{},
@@ -165,7 +169,12 @@ func (e *VerifEtcd) Get(_ context.Context, key string, opts ...clientv3.OpOption
 	e.mu.Lock()
 	defer e.mu.Unlock()
 	e.gets++
-	resp := &clientv3.GetResponse{Header: &etcdserverpb.ResponseHeader{Revision: e.rev}}
+	if e.getErrs > 0 {
+		e.getErrs--
+		return nil, errVerifFault
+	}
+	// the snapshot was read before the gap events happened
+	resp := &clientv3.GetResponse{Header: &etcdserverpb.ResponseHeader{Revision: e.rev - int64(len(e.gap[key]))}}
 	for _, kv := range e.snap[key] {
 		resp.Kvs = append(resp.Kvs, &mvccpb.KeyValue{Key: []byte(kv.Key), Value: []byte(kv.Val)})
 	}
@@ -334,6 +343,10 @@ func (e *VerifEtcd) Watch(_ context.Context, key string, opts ...clientv3.OpOpti
 	e.mu.Lock()
 	e.chans[key] = ch
 	e.prefixed[key] = prefix
+	if e.reqRev == nil {
+		e.reqRev = map[string]int64{}
+	}
+	e.reqRev[key] = clientv3.OpGet(key, opts...).Rev()
 	e.mu.Unlock()
 	e.ready <- key
 	return ch
@@ -347,9 +360,57 @@ func (e *VerifEtcd) SetSnapshot(prefix string, kvs []internal.KV) {
 	e.mu.Unlock()
 }
 
+// FailGets makes the next n Get calls fail (load retries after a cool-down of about a second each).
+func (e *VerifEtcd) FailGets(n int) {
+	e.mu.Lock()
+	e.getErrs = n
+	e.mu.Unlock()
+}
+
+// Gets: number of Get calls so far.
+func (e *VerifEtcd) Gets() int {
+	e.mu.Lock()
+	defer e.mu.Unlock()
+	return e.gets
+}
+
+// SetGap records events that happen right after the current snapshot (revisions rev+1, rev+2, …) while no watch is
+// established.
+func (e *VerifEtcd) SetGap(prefix string, evs []*clientv3.Event) {
+	e.mu.Lock()
+	defer e.mu.Unlock()
+	if e.gap == nil {
+		e.gap = map[string][]*clientv3.Event{}
+	}
+	for _, ev := range evs {
+		e.rev++
+		ev.Kv.ModRevision = e.rev
+	}
+	e.gap[prefix] = evs
+}
+
+// DeliverGap hands the new watch what etcd replays for the revision it asked for, returns how many events that were.
+func (e *VerifEtcd) DeliverGap(prefix string) int {
+	e.mu.Lock()
+	evs, from := e.gap[prefix], e.reqRev[prefix]
+	delete(e.gap, prefix)
+	e.mu.Unlock()
+	var out []*clientv3.Event
+	for _, ev := range evs {
+		if from != 0 && ev.Kv.ModRevision >= from {
+			out = append(out, ev)
+		}
+	}
+	if len(out) > 0 {
+		e.Push(prefix, clientv3.WatchResponse{Events: out})
+	}
+	e.Sync(prefix)
+	return len(out)
+}
+
 // AwaitWatch blocks until the code under test has (re-)established its watch on the prefix.
 func (e *VerifEtcd) AwaitWatch(prefix string) {
-	deadline := time.After(20 * time.Second)
+	deadline := time.After(verifLongWait())
 	for {
 		select {
 		case k := <-e.ready:
@@ -357,6 +418,7 @@ func (e *VerifEtcd) AwaitWatch(prefix string) {
 				return
 			}
 		case <-deadline:
+			verifGaveUp()
 			panic("verif: watch on " + prefix + " was not established")
 		}
 	}
@@ -365,7 +427,7 @@ func (e *VerifEtcd) AwaitWatch(prefix string) {
 // AwaitWatchOf waits for the first watch whose key starts with the service key and returns that watch key
 // (the code under test builds it: makeKeyPrefix).
 func (e *VerifEtcd) AwaitWatchOf(key string) string {
-	deadline := time.After(20 * time.Second)
+	deadline := time.After(verifLongWait())
 	for {
 		select {
 		case k := <-e.ready:
@@ -373,6 +435,7 @@ func (e *VerifEtcd) AwaitWatchOf(key string) string {
 				return k
 			}
 		case <-deadline:
+			verifGaveUp()
 			panic("verif: watch for " + key + " was not established")
 		}
 	}
@@ -386,6 +449,7 @@ func (e *VerifEtcd) DropWatches() {
 	e.store = map[string]verifStored{}
 	e.kaChans = map[clientv3.LeaseID]chan *clientv3.LeaseKeepAliveResponse{}
 	e.failGrant, e.failPut, e.failKA, e.failRevoke = 0, 0, 0, 0
+	e.gap, e.reqRev, e.getErrs = map[string][]*clientv3.Event{}, map[string]int64{}, 0
 	e.mu.Unlock()
 }
 
@@ -396,8 +460,62 @@ func (e *VerifEtcd) Push(prefix string, resp clientv3.WatchResponse) {
 	e.mu.Unlock()
 	select {
 	case ch <- resp:
-	case <-time.After(20 * time.Second):
+	case <-time.After(verifLongWait()):
+		verifGaveUp()
 		panic("verif: watch loop on " + prefix + " does not receive")
+	}
+}
+
+// verifLongWait: the patience of the single-key helpers (they panic when it runs out: the operation is recorded as
+// PANIC); after the first time the code under test did not react, every later wait of the process is short.
+var verifLong = 8 * time.Second
+
+func verifLongWait() time.Duration {
+	d := verifLong
+	return d
+}
+
+func verifGaveUp() { verifLong = 300 * time.Millisecond }
+
+// verifPatience: how long the multi-key sections wait for the watch loop; after the first time it did not react (the
+// run is a violation already) the waits are short, so that a stuck view is reported within the quick budget.
+var verifPatience = 5 * time.Second
+
+// TryPush is Push that gives up: false when the watch loop does not receive.
+func (e *VerifEtcd) TryPush(prefix string, resp clientv3.WatchResponse) bool {
+	e.mu.Lock()
+	ch := e.chans[prefix]
+	e.mu.Unlock()
+	if ch == nil {
+		return false
+	}
+	select {
+	case ch <- resp:
+		return true
+	case <-time.After(verifPatience):
+		verifPatience = 200 * time.Millisecond
+		return false
+	}
+}
+
+// TryDeliver = push + sync, false when the loop did not take both.
+func (e *VerifEtcd) TryDeliver(prefix string, resp clientv3.WatchResponse) bool {
+	return e.TryPush(prefix, resp) && e.TryPush(prefix, clientv3.WatchResponse{})
+}
+
+// TryAwaitWatch waits for the watch on the key to be established again; false: it was not.
+func (e *VerifEtcd) TryAwaitWatch(prefix string) bool {
+	deadline := time.After(verifPatience)
+	for {
+		select {
+		case k := <-e.ready:
+			if k == prefix {
+				return true
+			}
+		case <-deadline:
+			verifPatience = 200 * time.Millisecond
+			return false
+		}
 	}
 }
 
@@ -698,6 +816,30 @@ func (s *VerifSession) Exec(op []string) bool {
 		s.Etcd.Push(s.Prefix, clientv3.WatchResponse{CompactRevision: 1, Canceled: op[0] == "reloadc"})
 		s.Etcd.AwaitWatch(s.Prefix)
 		s.Etcd.Sync(s.Prefix)
+	case "reloadg":
+		// reloadg <n> <k>:<v> …: compaction; the next n Gets fail: load cools down and retries, then installs the snapshot
+		s.Etcd.SetSnapshot(s.Prefix, VerifParseKVs(s.Key, op[2:]))
+		s.Etcd.FailGets(verifh.Atoi(op[1]))
+		s.Etcd.Push(s.Prefix, clientv3.WatchResponse{CompactRevision: 1, Canceled: true})
+		s.Etcd.AwaitWatch(s.Prefix)
+		s.Etcd.Sync(s.Prefix)
+	case "reloadgap":
+		// reloadgap <k>:<v> … / p:<k>:<v> d:<k> …: compaction; after the snapshot was read and before the watch is
+		// established again further events happen: etcd replays them to a watch that starts at the revision after the snapshot
+		i := 1
+		for ; i < len(op) && op[i] != "/"; i++ {
+		}
+		var evs []*clientv3.Event
+		if i < len(op) {
+			for _, t := range op[i+1:] {
+				evs = append(evs, verifEvent(s.Key, t))
+			}
+		}
+		s.Etcd.SetSnapshot(s.Prefix, VerifParseKVs(s.Key, op[1:i]))
+		s.Etcd.SetGap(s.Prefix, evs)
+		s.Etcd.Push(s.Prefix, clientv3.WatchResponse{CompactRevision: 1, Canceled: true})
+		s.Etcd.AwaitWatch(s.Prefix)
+		s.Etcd.DeliverGap(s.Prefix)
 	case "connreload":
 		// connection-state change: cluster.reload cancels every watch, waits for the watch goroutines and
 		// starts new ones (load -> handleChanges, then watch); whatever happened meanwhile is in the snapshot only
@@ -963,11 +1105,35 @@ func VerifC13Gen(r *verifh.Rng, nsecQuick, nsecThorough int, bigEvery int) []ver
 				}
 				applySnap(cur, snap)
 				ops = append(ops, strings.Join(append(append(toks, "/"), snap...), " "))
-			case x < 96:
+			case x < 95 && !big:
+				// events in the gap between the snapshot and the new watch (revisions)
+				snap := snapshot(cur)
+				for k := range cur {
+					delete(cur, k)
+				}
+				applySnap(cur, snap)
+				toks := append(append([]string{"reloadgap"}, snap...), "/")
+				for b := r.Range(1, 3); b > 0; b-- {
+					if k := r.Intn(nk); r.Chance(2, 3) {
+						v := r.Intn(nv)
+						cur[k] = v
+						toks = append(toks, fmt.Sprintf("p:%d:%d", k, v))
+					} else {
+						delete(cur, k)
+						toks = append(toks, fmt.Sprintf("d:%d", k))
+					}
+				}
+				ops = append(ops, strings.Join(toks, " "))
+			case x < 97:
 				ops = append(ops, "cancel")
 			default:
 				ops = append(ops, "closech")
 			}
+		}
+		if !big && i%verifh.Scale(60, 400) == 7 {
+			// a failed Get costs about a second of real time (load's cool-down): a few per run
+			snap := snapshot(cur)
+			ops = append(ops, strings.TrimSpace("reloadg 1 "+strings.Join(snap, " ")))
 		}
 		secs = append(secs, verifh.Section{
 			Cfg: fmt.Sprintf("excl=%d", b2i(excl)),
